@@ -18,7 +18,7 @@ REQUIRED_THEOREMS = ['OpusProps.C18.' + t for t in (
     'gains_quant_dequant', 'gains_quant_index_in_range', 'nlsf_interp_enc_dec_agree', 'pitch_in_range',
     # range theorems: no 32-bit wrap, no truncating (opus_int16) cast
     'bwexpander32_nowrap', 'lpc_fit_int16', 'nlsf2a_nowrap_d10', 'nlsf2a_nowrap_d16_partial',
-    'nlsf2a_d16_unordered_overflows', 'nlsf_decode_nowrap', 'nlsf_decode_domain_from_decoder', 'log2lin_nowrap',
+    'nlsf2a_d16_unordered_overflows', 'nlsf_decode_nowrap', 'nlsf_decode_domain_from_decoder', 'pitch_domain_from_decoder', 'log2lin_nowrap',
     'gains_dequant_nowrap', 'decode_pitch_nowrap', 'inverse_pred_gain_nowrap',
     'inverse_pred_gain_reflection_bounded', 'nlsf2a_reflection_bounded')]
 UNPROVED = ['nlsf2a_nowrap_d16 (the full statement is a comment block in OpusProps/C18.lean): for ORDERED NLSF vectors of order 16 '
